@@ -136,6 +136,9 @@ type ConnSpec struct {
 	ServerCloseAfter int
 	// ServerStall: the server stops reading for this long right after its handshake (slow node).
 	ServerStall time.Duration
+	// ServerKeyUpdate (reference server, TLS 1.3): asked before the n-th echo write; send => the
+	// server sends a KeyUpdate first, request => with update_requested.
+	ServerKeyUpdate func(n int) (send, request bool)
 }
 
 // ConnOutcome is everything observed about one connection.
@@ -160,6 +163,7 @@ type ConnOutcome struct {
 	CPanic   any
 	SPanic   any
 	RefConn  *refsrv.Conn
+	KeyUpdates int // KeyUpdate messages the reference server sent
 }
 
 func isRemote(err error) bool {
@@ -245,10 +249,21 @@ func defaultServer(o *ConnOutcome, conn net.Conn) {
 		conn.SetDeadline(time.Now().Add(dl))
 	}
 	buf := make([]byte, rs)
+	echoes := 0
 	for {
 		n, err := rw.Read(buf)
 		if n > 0 {
 			o.SRead = append(o.SRead, buf[:n]...)
+			if sp.ServerKeyUpdate != nil && o.RefConn != nil && o.S.Version == tls.VersionTLS13 {
+				if send, req := sp.ServerKeyUpdate(echoes); send {
+					if kerr := o.RefConn.SendKeyUpdate(req); kerr != nil {
+						o.SIOErr = kerr
+						break
+					}
+					o.KeyUpdates++
+				}
+			}
+			echoes++
 			if _, werr := rw.Write(buf[:n]); werr != nil {
 				o.SIOErr = werr
 				break
